@@ -234,10 +234,13 @@ def rdBody (h : Header) (w : Window) : Prog Body :=
   | .v02 => rdBodyV02 h w
   | .other => .fail
 
+/-- `(PoseHeaderCache.end_offset or 10 * 1024) + 100` -/
+def prefetchHint (cache : Option CacheEntry) : Nat :=
+  (match cache with | some c => if c.endOff = 0 then 10240 else c.endOff | none => 10240) + 100
+
 /-- `Pose.read`: prefetch hint, header (through the cache), body -/
 def rdPose (cache : Option CacheEntry) (w : Window) : Prog (Pose × Option CacheEntry) :=
-  let hint := (match cache with | some c => if c.endOff = 0 then 10240 else c.endOff | none => 10240) + 100
-  .expect hint <|
+  .expect (prefetchHint cache) <|
   Prog.bind (rdHeader cache) fun hc =>
   Prog.bind (rdBody hc.1 w) fun b =>
   .ret (⟨hc.1, b⟩, hc.2)
